@@ -18,3 +18,22 @@ package loki
 //@   site call strings.Split #2:
 //@     assert [a-pair-is-split-as-it-stands] arg0 == pair && arg1 == "="
 //@ end
+
+// C15 (what a push is acknowledged as is what was stored): a Loki JSON push is
+// refused as a whole (HTTP 400) on any malformed entry — so nothing of it may be
+// in the store by then: every stream and entry is validated first, the single
+// store call comes last.  Ghost lokiStored: the store call of this push has run.
+//@ ghostdecl lokiStored int
+//@ func processJsonLogs
+//@   props C15
+//@   assumecalleerequires
+//@   ghostinit ghost(0, "lokiStored") == 0
+//@   site callret writer.ProcessIndexRequestPle #1:
+//@     ghostset ghost(0, "lokiStored") = 1
+//@   loop 1:
+//@     invariant [nothing-of-the-push-is-stored-while-its-streams-are-validated] ghost(0, "lokiStored") == 0
+//@   loop 2:
+//@     invariant [nothing-of-the-push-is-stored-while-its-entries-are-validated] ghost(0, "lokiStored") == 0
+//@   site call writer.ProcessIndexRequestPle #1:
+//@     assert [the-push-is-stored-once-after-everything-was-validated] ghost(0, "lokiStored") == 0
+//@ end
